@@ -628,4 +628,669 @@ theorem T_C17_bare (v : Variant) (s : String) (hs : s ∈ boolOptNames) (a0 : To
   exact expand_trait_of_rel v v (attrOf (A ++ [i s] :: B)) (attrOf (A ++ [i s, p '=', i "true"] :: B))
     (by rw [htr]; exact parseRel_refl_trait v _) t
 
+
+/-! ### simulation of two runs of the option-list parser -/
+
+def Opt.key : Opt → Nat
+  | .noDeps _ => 0 | .debug _ => 1 | .delegateBy _ => 2 | .export_ _ => 3
+  | .maybeSend => 4 | .mockApi _ => 5 | .unimock _ => 6 | .mockall _ => 7
+
+/-- no segment of the list sets the option with key `k` -/
+def NoKey (k : Nat) (segs : List Toks) : Prop :=
+  ∀ seg ∈ segs, ∀ o rest, parseOpt seg = .ok (o, rest) → Opt.key o ≠ k
+
+theorem parseOptSegs_sim {σ : Type} (set : σ → Opt → Option σ) (R : σ → σ → Prop) (P : Opt → Prop)
+    (hstep : ∀ st st' o, R st st' → P o →
+      (set st o = none ∧ set st' o = none) ∨ ∃ s s', set st o = some s ∧ set st' o = some s' ∧ R s s') :
+    ∀ (segs : List Toks) (st st' : σ), R st st' →
+      (∀ seg ∈ segs, ∀ o rest, parseOpt seg = .ok (o, rest) → P o) →
+      ParseRel R (parseOptSegs set st segs) (parseOptSegs set st' segs)
+  | [], st, st', hr, _ => by simp only [parseOptSegs, ParseRel]; exact hr
+  | seg :: segs, st, st', hr, hP => by
+      rw [parseOptSegs.eq_2, parseOptSegs.eq_2]
+      cases hp : parseOpt seg with
+      | error e => simp only [ParseRel]
+      | ok or =>
+        obtain ⟨o, rest⟩ := or
+        simp only []
+        rcases hstep st st' o hr (hP seg List.mem_cons_self o rest hp) with ⟨h1, h2⟩ | ⟨s, s', h1, h2, hr'⟩
+        · simp only [h1, h2, ParseRel]
+        · simp only [h1, h2]
+          split
+          · exact parseOptSegs_sim set R P hstep segs s s' hr' (fun sg hsg => hP sg (List.mem_cons_of_mem _ hsg))
+          · simp only [ParseRel]
+
+/-- an invariant of the parser state that every option allowed by `P` preserves -/
+theorem parseOptSegs_invariant {σ : Type} (set : σ → Opt → Option σ) (Q : σ → Prop) (P : Opt → Prop)
+    (hstep : ∀ st o s, Q st → P o → set st o = some s → Q s) (segs : List Toks) (st r : σ) (hq : Q st)
+    (hP : ∀ seg ∈ segs, ∀ o rest, parseOpt seg = .ok (o, rest) → P o)
+    (h : parseOptSegs set st segs = .ok r) : Q r := by
+  have := parseOptSegs_sim set (fun a b => a = b ∧ Q a) P
+    (by
+      intro a b o ⟨hab, hqa⟩ hpo
+      subst hab
+      cases hs : set a o with
+      | none => exact Or.inl ⟨rfl, rfl⟩
+      | some s => exact Or.inr ⟨s, s, rfl, rfl, rfl, hstep a o s hqa hpo hs⟩)
+    segs st st ⟨rfl, hq⟩ hP
+  rw [h] at this
+  exact this.2
+
+theorem parseRel_append {σ : Type} (set : σ → Opt → Option σ) (E : σ → σ → Prop) (A X1 X2 : List Toks) (st : σ)
+    (h : ∀ stA, parseOptSegs set st A = .ok stA → ParseRel E (parseOptSegs set stA X1) (parseOptSegs set stA X2)) :
+    ParseRel E (parseOptSegs set st (A ++ X1)) (parseOptSegs set st (A ++ X2)) := by
+  rw [parseOptSegs_append, parseOptSegs_append]
+  cases hA : parseOptSegs set st A with
+  | error e => simp only [ParseRel]
+  | ok stA => exact h stA hA
+
+theorem parseFnSegs_cons (seg0 : Toks) (segs : List Toks) :
+    parseFnSegs (seg0 :: segs) =
+      match parseVis seg0 with
+      | .error e => .error e
+      | .ok (vis, rest) =>
+        match rest with
+        | [.ident name] =>
+            if isKeyword name then .error .syn
+            else
+              match parseOptSegs Opts.setFn {} segs with
+              | .error e => .error e
+              | .ok opts => .ok { traitVis := vis, traitIdent := name, opts := opts }
+        | _ => .error .syn := rfl
+
+/-- from a relation between the parsed option sets to a relation between the parsed attributes -/
+theorem parseFnSegs_rel (v1 v2 : Variant) (a0 : Toks) (X1 X2 : List Toks) (E : Opts → Opts → Prop)
+    (hE : ∀ r1 r2, E r1 r2 → vals (v1.apply r1) = vals (v2.apply r2))
+    (h : ParseRel E (parseOptSegs Opts.setFn {} X1) (parseOptSegs Opts.setFn {} X2)) :
+    ParseRel (FnAttrEquiv v1 v2) (parseFnSegs (a0 :: X1)) (parseFnSegs (a0 :: X2)) := by
+  rw [parseFnSegs_cons, parseFnSegs_cons]
+  cases parseVis a0 with
+  | error e => simp only [ParseRel]
+  | ok vr =>
+    obtain ⟨vis, rest⟩ := vr
+    simp only []
+    split
+    · rename_i name
+      split
+      · simp only [ParseRel]
+      · cases h1 : parseOptSegs Opts.setFn {} X1 with
+        | error e1 =>
+          cases h2 : parseOptSegs Opts.setFn {} X2 with
+          | error e2 => rw [h1, h2] at h; simpa only [ParseRel] using h
+          | ok r2 => rw [h1, h2] at h; simp only [ParseRel] at h
+        | ok r1 =>
+          cases h2 : parseOptSegs Opts.setFn {} X2 with
+          | error e2 => rw [h1, h2] at h; simp only [ParseRel] at h
+          | ok r2 =>
+            rw [h1, h2] at h
+            simp only [ParseRel] at h ⊢
+            exact ⟨rfl, rfl, hE r1 r2 h⟩
+    · simp only [ParseRel]
+
+/-- the token-level form of `parseFnSegs_rel` -/
+theorem parseFnAttr_rel (v1 v2 : Variant) (a0 : Toks) (X1 X2 : List Toks) (E : Opts → Opts → Prop)
+    (ha0 : CommaFree a0) (h1c : ∀ s ∈ X1, CommaFree s) (h2c : ∀ s ∈ X2, CommaFree s)
+    (hE : ∀ r1 r2, E r1 r2 → vals (v1.apply r1) = vals (v2.apply r2))
+    (h : ParseRel E (parseOptSegs Opts.setFn {} X1) (parseOptSegs Opts.setFn {} X2)) :
+    ParseRel (FnAttrEquiv v1 v2) (parseFnAttr (attrOf (a0 :: X1))) (parseFnAttr (attrOf (a0 :: X2))) := by
+  unfold parseFnAttr
+  rw [splitCommas_attrOf _ (by simp) (by
+        intro s hs; rcases List.mem_cons.mp hs with rfl | hs
+        · exact ha0
+        · exact h1c s hs),
+      splitCommas_attrOf _ (by simp) (by
+        intro s hs; rcases List.mem_cons.mp hs with rfl | hs
+        · exact ha0
+        · exact h2c s hs)]
+  exact parseFnSegs_rel v1 v2 a0 X1 X2 E hE h
+
+/-! ### (b) `no_deps = false` and `export = false` are identical to omitting them -/
+
+def segNoDepsFalse : Toks := [i "no_deps", p '=', i "false"]
+def segExportFalse : Toks := [i "export", p '=', i "false"]
+
+theorem parse_noDepsFalse : parseOpt segNoDepsFalse = .ok (.noDeps false, []) := rfl
+theorem parse_exportFalse : parseOpt segExportFalse = .ok (.export_ false, []) := rfl
+
+theorem commaFree_3 (a b c : TT) (ha : isComma a = false) (hb : isComma b = false) (hc : isComma c = false) :
+    CommaFree [a, b, c] := by
+  intro t ht
+  simp only [List.mem_cons, List.mem_nil_iff, or_false] at ht
+  rcases ht with rfl | rfl | rfl <;> assumption
+
+theorem setFn_noDeps_sim (st st' : Opts) (o : Opt) (hr : st' = { st with noDeps := some false }) (hp : Opt.key o ≠ 0) :
+    (Opts.setFn st o = none ∧ Opts.setFn st' o = none) ∨
+      ∃ s s', Opts.setFn st o = some s ∧ Opts.setFn st' o = some s' ∧ s' = { s with noDeps := some false } := by
+  subst hr
+  cases o with
+  | noDeps b => exact absurd rfl hp
+  | delegateBy d => exact Or.inl ⟨rfl, rfl⟩
+  | debug b => exact Or.inr ⟨_, _, rfl, rfl, rfl⟩
+  | export_ b => exact Or.inr ⟨_, _, rfl, rfl, rfl⟩
+  | maybeSend => exact Or.inr ⟨_, _, rfl, rfl, rfl⟩
+  | mockApi m => exact Or.inr ⟨_, _, rfl, rfl, rfl⟩
+  | unimock b => exact Or.inr ⟨_, _, rfl, rfl, rfl⟩
+  | mockall b => exact Or.inr ⟨_, _, rfl, rfl, rfl⟩
+
+theorem setFn_export_sim (st st' : Opts) (o : Opt) (hr : st' = { st with export_ := some false }) (hp : Opt.key o ≠ 3) :
+    (Opts.setFn st o = none ∧ Opts.setFn st' o = none) ∨
+      ∃ s s', Opts.setFn st o = some s ∧ Opts.setFn st' o = some s' ∧ s' = { s with export_ := some false } := by
+  subst hr
+  cases o with
+  | export_ b => exact absurd rfl hp
+  | delegateBy d => exact Or.inl ⟨rfl, rfl⟩
+  | debug b => exact Or.inr ⟨_, _, rfl, rfl, rfl⟩
+  | noDeps b => exact Or.inr ⟨_, _, rfl, rfl, rfl⟩
+  | maybeSend => exact Or.inr ⟨_, _, rfl, rfl, rfl⟩
+  | mockApi m => exact Or.inr ⟨_, _, rfl, rfl, rfl⟩
+  | unimock b => exact Or.inr ⟨_, _, rfl, rfl, rfl⟩
+  | mockall b => exact Or.inr ⟨_, _, rfl, rfl, rfl⟩
+
+/-- a field no segment sets keeps its initial value -/
+theorem setFn_noDeps_untouched (segs : List Toks) (st r : Opts) (hn : NoKey 0 segs) (hst : st.noDeps = none)
+    (h : parseOptSegs Opts.setFn st segs = .ok r) : r.noDeps = none :=
+  parseOptSegs_invariant Opts.setFn (fun s => s.noDeps = none) (fun o => Opt.key o ≠ 0)
+    (by
+      intro s o s' hq hp hs
+      cases o <;> simp [Opts.setFn] at hs <;> first | (subst hs; exact hq) | exact absurd rfl hp)
+    segs st r hst hn h
+
+theorem setFn_export_untouched (segs : List Toks) (st r : Opts) (hn : NoKey 3 segs) (hst : st.export_ = none)
+    (h : parseOptSegs Opts.setFn st segs = .ok r) : r.export_ = none :=
+  parseOptSegs_invariant Opts.setFn (fun s => s.export_ = none) (fun o => Opt.key o ≠ 3)
+    (by
+      intro s o s' hq hp hs
+      cases o <;> simp [Opts.setFn] at hs <;> first | (subst hs; exact hq) | exact absurd rfl hp)
+    segs st r hst hn h
+
+theorem setFn_unimock_untouched (segs : List Toks) (st r : Opts) (hn : NoKey 6 segs) (hst : st.unimock = none)
+    (h : parseOptSegs Opts.setFn st segs = .ok r) : r.unimock = none :=
+  parseOptSegs_invariant Opts.setFn (fun s => s.unimock = none) (fun o => Opt.key o ≠ 6)
+    (by
+      intro s o s' hq hp hs
+      cases o <;> simp [Opts.setFn] at hs <;> first | (subst hs; exact hq) | exact absurd rfl hp)
+    segs st r hst hn h
+
+theorem noKey_append {k : Nat} {A B : List Toks} (h : NoKey k (A ++ B)) : NoKey k A ∧ NoKey k B :=
+  ⟨fun s hs => h s (List.mem_append_left _ hs), fun s hs => h s (List.mem_append_right _ hs)⟩
+
+/-- the option set parsed with `no_deps = false` inserted, against the one without -/
+theorem noDepsFalse_rel (A B : List Toks) (hn : NoKey 0 (A ++ B)) :
+    ParseRel (fun r0 r => r = { r0 with noDeps := some false } ∧ r0.noDeps = none)
+      (parseOptSegs Opts.setFn {} (A ++ B)) (parseOptSegs Opts.setFn {} (A ++ segNoDepsFalse :: B)) := by
+  have hmain : ParseRel (fun r0 r => r = { r0 with noDeps := some false })
+      (parseOptSegs Opts.setFn {} (A ++ B)) (parseOptSegs Opts.setFn {} (A ++ segNoDepsFalse :: B)) := by
+    apply parseRel_append
+    intro stA _
+    rw [parseOptSegs.eq_2 Opts.setFn stA segNoDepsFalse B, parse_noDepsFalse]
+    simp only [Opts.setFn, List.isEmpty_nil, if_true]
+    exact parseOptSegs_sim Opts.setFn _ (fun o => Opt.key o ≠ 0) setFn_noDeps_sim B stA _ rfl (noKey_append hn).2
+  cases h0 : parseOptSegs Opts.setFn {} (A ++ B) with
+  | error e =>
+    rw [h0] at hmain
+    cases h1 : parseOptSegs Opts.setFn {} (A ++ segNoDepsFalse :: B) with
+    | error e1 => rw [h1] at hmain; simpa only [ParseRel] using hmain
+    | ok r => rw [h1] at hmain; simp only [ParseRel] at hmain
+  | ok r0 =>
+    rw [h0] at hmain
+    cases h1 : parseOptSegs Opts.setFn {} (A ++ segNoDepsFalse :: B) with
+    | error e1 => rw [h1] at hmain; simp only [ParseRel] at hmain
+    | ok r =>
+      rw [h1] at hmain
+      simp only [ParseRel] at hmain ⊢
+      exact ⟨hmain, setFn_noDeps_untouched _ _ _ hn rfl h0⟩
+
+theorem exportFalse_rel (A B : List Toks) (hn : NoKey 3 (A ++ B)) :
+    ParseRel (fun r0 r => r = { r0 with export_ := some false } ∧ r0.export_ = none)
+      (parseOptSegs Opts.setFn {} (A ++ B)) (parseOptSegs Opts.setFn {} (A ++ segExportFalse :: B)) := by
+  have hmain : ParseRel (fun r0 r => r = { r0 with export_ := some false })
+      (parseOptSegs Opts.setFn {} (A ++ B)) (parseOptSegs Opts.setFn {} (A ++ segExportFalse :: B)) := by
+    apply parseRel_append
+    intro stA _
+    rw [parseOptSegs.eq_2 Opts.setFn stA segExportFalse B, parse_exportFalse]
+    simp only [Opts.setFn, List.isEmpty_nil, if_true]
+    exact parseOptSegs_sim Opts.setFn _ (fun o => Opt.key o ≠ 3) setFn_export_sim B stA _ rfl (noKey_append hn).2
+  cases h0 : parseOptSegs Opts.setFn {} (A ++ B) with
+  | error e =>
+    rw [h0] at hmain
+    cases h1 : parseOptSegs Opts.setFn {} (A ++ segExportFalse :: B) with
+    | error e1 => rw [h1] at hmain; simpa only [ParseRel] using hmain
+    | ok r => rw [h1] at hmain; simp only [ParseRel] at hmain
+  | ok r0 =>
+    rw [h0] at hmain
+    cases h1 : parseOptSegs Opts.setFn {} (A ++ segExportFalse :: B) with
+    | error e1 => rw [h1] at hmain; simp only [ParseRel] at hmain
+    | ok r =>
+      rw [h1] at hmain
+      simp only [ParseRel] at hmain ⊢
+      exact ⟨hmain, setFn_export_untouched _ _ _ hn rfl h0⟩
+
+theorem vals_noDepsFalse (v : Variant) (r0 : Opts) (h : r0.noDeps = none) :
+    vals (v.apply r0) = vals (v.apply { r0 with noDeps := some false }) := by
+  cases v <;> simp [vals, Variant.apply, Opts.noDepsValue, Opts.exportValue, Opts.futureSendValue, Opts.unimockValue,
+    Opts.mockallValue, h]
+
+theorem vals_exportFalse (v : Variant) (hv : v = .plain ∨ v = .unimock) (r0 : Opts) (h : r0.export_ = none) :
+    vals (v.apply r0) = vals (v.apply { r0 with export_ := some false }) := by
+  rcases hv with rfl | rfl <;>
+    simp [vals, Variant.apply, Opts.noDepsValue, Opts.exportValue, Opts.futureSendValue, Opts.unimockValue,
+      Opts.mockallValue, h]
+
+/-- **`no_deps = false` ≡ omitted**: for every variant, at any position, provided no other segment
+    sets `no_deps` -/
+theorem T_C17_noDeps_false (v : Variant) (a0 : Toks) (A B : List Toks)
+    (ha0 : CommaFree a0) (hA : ∀ s ∈ A, CommaFree s) (hB : ∀ s ∈ B, CommaFree s) (hn : NoKey 0 (A ++ B)) :
+    (∀ f, expand v (attrOf (a0 :: A ++ B)) (.fn f) = expand v (attrOf (a0 :: A ++ segNoDepsFalse :: B)) (.fn f)) ∧
+    (∀ m, expand v (attrOf (a0 :: A ++ B)) (.mod_ m) = expand v (attrOf (a0 :: A ++ segNoDepsFalse :: B)) (.mod_ m)) := by
+  have hc : CommaFree segNoDepsFalse := commaFree_3 _ _ _ rfl rfl rfl
+  have := parseFnAttr_rel v v a0 (A ++ B) (A ++ segNoDepsFalse :: B) _ ha0
+    (by intro s hs; rcases List.mem_append.mp hs with h | h; exact hA s h; exact hB s h)
+    (commaFree_all_append hA hc hB)
+    (by rintro r0 r ⟨rfl, h0⟩; exact vals_noDepsFalse v r0 h0)
+    (noDepsFalse_rel A B hn)
+  exact expand_fnmod_of_rel v v (attrOf (a0 :: (A ++ B))) (attrOf (a0 :: (A ++ segNoDepsFalse :: B))) this
+
+/-- **`export = false` ≡ omitted**, before variant defaults apply (`entrait` itself, with or without
+    the `unimock` feature) -/
+theorem T_C17_export_false (v : Variant) (hv : v = .plain ∨ v = .unimock) (a0 : Toks) (A B : List Toks)
+    (ha0 : CommaFree a0) (hA : ∀ s ∈ A, CommaFree s) (hB : ∀ s ∈ B, CommaFree s) (hn : NoKey 3 (A ++ B)) :
+    (∀ f, expand v (attrOf (a0 :: A ++ B)) (.fn f) = expand v (attrOf (a0 :: A ++ segExportFalse :: B)) (.fn f)) ∧
+    (∀ m, expand v (attrOf (a0 :: A ++ B)) (.mod_ m) = expand v (attrOf (a0 :: A ++ segExportFalse :: B)) (.mod_ m)) := by
+  have hc : CommaFree segExportFalse := commaFree_3 _ _ _ rfl rfl rfl
+  have := parseFnAttr_rel v v a0 (A ++ B) (A ++ segExportFalse :: B) _ ha0
+    (by intro s hs; rcases List.mem_append.mp hs with h | h; exact hA s h; exact hB s h)
+    (commaFree_all_append hA hc hB)
+    (by rintro r0 r ⟨rfl, h0⟩; exact vals_exportFalse v hv r0 h0)
+    (exportFalse_rel A B hn)
+  exact expand_fnmod_of_rel v v (attrOf (a0 :: (A ++ B))) (attrOf (a0 :: (A ++ segExportFalse :: B))) this
+
+/-- the exception is real: under `entrait_export`, `export = false` is *not* the same as omitting it -/
+example : vals (Variant.export_.apply {}) ≠ vals (Variant.export_.apply { export_ := some false }) := by decide
+
+
+/-! ### (d) macro variants are option shorthands -/
+
+def segExport : Toks := [i "export"]
+def segUnimock : Toks := [i "unimock"]
+theorem parse_export : parseOpt segExport = .ok (.export_ true, []) := rfl
+theorem parse_unimock : parseOpt segUnimock = .ok (.unimock true, []) := rfl
+
+/-- `entrait_export` is `entrait` + `export`; with the `unimock` feature likewise -/
+def addExport : Variant → Variant
+  | .plain => .export_
+  | .unimock => .exportUnimock
+  | v => v
+
+/-- the `unimock` cargo feature turns `entrait` into the unimock variant -/
+def addUnimock : Variant → Variant
+  | .plain => .unimock
+  | .export_ => .exportUnimock
+  | v => v
+
+/-- appending one option segment -/
+theorem snoc_rel {σ : Type} (set : σ → Opt → Option σ) (X : List Toks) (seg : Toks) (o : Opt) (st : σ) (f : σ → σ)
+    (hp : parseOpt seg = .ok (o, [])) (hset : ∀ s, set s o = some (f s)) :
+    ParseRel (fun r0 r => r = f r0) (parseOptSegs set st X) (parseOptSegs set st (X ++ [seg])) := by
+  have := parseRel_append set (fun r0 r => r = f r0) X [] [seg] st
+    (by
+      intro stA _
+      rw [parseOptSegs.eq_2, hp]
+      simp only [hset, List.isEmpty_nil, if_true, parseOptSegs, ParseRel])
+  simpa only [List.append_nil] using this
+
+theorem rel_strengthen {σ : Type} {E : σ → σ → Prop} {Q : σ → Prop} {r1 r2 : Except PErr σ}
+    (h : ParseRel E r1 r2) (hq : ∀ r, r1 = .ok r → Q r) : ParseRel (fun a b => E a b ∧ Q a) r1 r2 := by
+  cases r1 with
+  | error e => cases r2 <;> simpa only [ParseRel] using h
+  | ok a =>
+    cases r2 with
+    | error e => simp only [ParseRel] at h
+    | ok b => simp only [ParseRel] at h ⊢; exact ⟨h, hq a rfl⟩
+
+theorem vals_addExport (v : Variant) (hv : v = .plain ∨ v = .unimock) (r0 : Opts) (h : r0.export_ = none) :
+    vals ((addExport v).apply r0) = vals (v.apply { r0 with export_ := some true }) := by
+  rcases hv with rfl | rfl <;>
+    simp [addExport, vals, Variant.apply, Opts.noDepsValue, Opts.exportValue, Opts.futureSendValue, Opts.unimockValue,
+      Opts.mockallValue, h]
+
+theorem vals_addUnimock (v : Variant) (hv : v = .plain ∨ v = .export_) (r0 : Opts) (h : r0.unimock = none) :
+    vals ((addUnimock v).apply r0) = vals (v.apply { r0 with unimock := some true }) := by
+  rcases hv with rfl | rfl <;>
+    simp [addUnimock, vals, Variant.apply, Opts.noDepsValue, Opts.exportValue, Opts.futureSendValue, Opts.unimockValue,
+      Opts.mockallValue, h]
+
+/-- **`entrait_export(args)` ≡ `entrait(args, export)`** unless `args` sets `export` (fn / mod) -/
+theorem T_C17_variant_export (v : Variant) (hv : v = .plain ∨ v = .unimock) (a0 : Toks) (X : List Toks)
+    (ha0 : CommaFree a0) (hX : ∀ s ∈ X, CommaFree s) (hn : NoKey 3 X) :
+    (∀ f, expand (addExport v) (attrOf (a0 :: X)) (.fn f) = expand v (attrOf (a0 :: X ++ [segExport])) (.fn f)) ∧
+    (∀ m, expand (addExport v) (attrOf (a0 :: X)) (.mod_ m) = expand v (attrOf (a0 :: X ++ [segExport])) (.mod_ m)) := by
+  have hrel := rel_strengthen (Q := fun r => r.export_ = none)
+    (snoc_rel Opts.setFn X segExport (.export_ true) {} (fun s => { s with export_ := some true }) parse_export (fun _ => rfl))
+    (fun r hr => setFn_export_untouched X {} r hn rfl hr)
+  have := parseFnAttr_rel (addExport v) v a0 X (X ++ [segExport]) _ ha0 hX
+    (by
+      intro s hs
+      rcases List.mem_append.mp hs with h | h
+      · exact hX s h
+      · simp only [List.mem_singleton] at h; subst h; exact commaFree_bare "export")
+    (by rintro r0 r ⟨rfl, h0⟩; exact vals_addExport v hv r0 h0)
+    hrel
+  exact expand_fnmod_of_rel (addExport v) v (attrOf (a0 :: X)) (attrOf (a0 :: (X ++ [segExport]))) this
+
+/-- **with the `unimock` feature, `entrait(args)` ≡ `entrait(args, unimock)` without it** unless
+    `args` sets `unimock`: fn / mod -/
+theorem T_C17_variant_unimock (v : Variant) (hv : v = .plain ∨ v = .export_) (a0 : Toks) (X : List Toks)
+    (ha0 : CommaFree a0) (hX : ∀ s ∈ X, CommaFree s) (hn : NoKey 6 X) :
+    (∀ f, expand (addUnimock v) (attrOf (a0 :: X)) (.fn f) = expand v (attrOf (a0 :: X ++ [segUnimock])) (.fn f)) ∧
+    (∀ m, expand (addUnimock v) (attrOf (a0 :: X)) (.mod_ m) = expand v (attrOf (a0 :: X ++ [segUnimock])) (.mod_ m)) := by
+  have hrel := rel_strengthen (Q := fun r => r.unimock = none)
+    (snoc_rel Opts.setFn X segUnimock (.unimock true) {} (fun s => { s with unimock := some true }) parse_unimock (fun _ => rfl))
+    (fun r hr => setFn_unimock_untouched X {} r hn rfl hr)
+  have := parseFnAttr_rel (addUnimock v) v a0 X (X ++ [segUnimock]) _ ha0 hX
+    (by
+      intro s hs
+      rcases List.mem_append.mp hs with h | h
+      · exact hX s h
+      · simp only [List.mem_singleton] at h; subst h; exact commaFree_bare "unimock")
+    (by rintro r0 r ⟨rfl, h0⟩; exact vals_addUnimock v hv r0 h0)
+    hrel
+  exact expand_fnmod_of_rel (addUnimock v) v (attrOf (a0 :: X)) (attrOf (a0 :: (X ++ [segUnimock]))) this
+
+
+/-! #### trait targets -/
+
+theorem traitSet_unimock_untouched (segs : List Toks) (st r : TraitAttr) (hn : NoKey 6 segs) (hst : st.opts.unimock = none)
+    (h : parseOptSegs TraitAttr.set st segs = .ok r) : r.opts.unimock = none :=
+  parseOptSegs_invariant TraitAttr.set (fun s => s.opts.unimock = none) (fun o => Opt.key o ≠ 6)
+    (by
+      intro s o s' hq hp hs
+      cases o <;> simp [TraitAttr.set] at hs <;> first | (subst hs; exact hq) | exact absurd rfl hp)
+    segs st r hst hn h
+
+theorem parseRel_mono {σ : Type} {E F : σ → σ → Prop} {r1 r2 : Except PErr σ} (hEF : ∀ a b, E a b → F a b)
+    (h : ParseRel E r1 r2) : ParseRel F r1 r2 := by
+  cases r1 with
+  | error e => cases r2 <;> simpa only [ParseRel] using h
+  | ok a =>
+    cases r2 with
+    | error e => simp only [ParseRel] at h
+    | ok b => simp only [ParseRel] at h ⊢; exact hEF a b h
+
+theorem trait_snoc_rel (v : Variant) (hv : v = .plain ∨ v = .export_) (st : TraitAttr) (X : List Toks)
+    (hn : NoKey 6 X) (hst : st.opts.unimock = none) :
+    ParseRel (TraitAttrEquiv (addUnimock v) v) (parseOptSegs TraitAttr.set st X)
+      (parseOptSegs TraitAttr.set st (X ++ [segUnimock])) := by
+  have hrel := rel_strengthen (Q := fun r => r.opts.unimock = none)
+    (snoc_rel TraitAttr.set X segUnimock (.unimock true) st
+      (fun s => { s with opts := { s.opts with unimock := some true } }) parse_unimock (fun _ => rfl))
+    (fun r hr => traitSet_unimock_untouched X st r hn hst hr)
+  refine parseRel_mono ?_ hrel
+  rintro a b ⟨rfl, h0⟩
+  exact ⟨rfl, rfl, vals_addUnimock v hv a.opts h0⟩
+
+theorem T_C17_variant_unimock_trait (v : Variant) (hv : v = .plain ∨ v = .export_) (S : List Toks)
+    (hS : ∀ s ∈ S, CommaFree s) (hne : ∀ s ∈ S, s ≠ []) (hn : NoKey 6 S)
+    (hr0 : ∀ s0 ∈ S.head?, ∀ vis name rest0, parseVis s0 = .ok (vis, .ident name :: rest0) → NoKey 6 [rest0])
+    (t : TraitItem) :
+    expand (addUnimock v) (attrOf S) (.trait t) = expand v (attrOf (S ++ [segUnimock])) (.trait t) := by
+  apply expand_trait_of_rel
+  cases S with
+  | nil =>
+    have h2 : parseTraitAttr (attrOf ([] ++ [segUnimock])) = .ok { opts := { unimock := some true } } := rfl
+    have h1 : parseTraitAttr (attrOf []) = .ok {} := rfl
+    rw [h1, h2]
+    simp only [ParseRel]
+    exact ⟨rfl, rfl, vals_addUnimock v hv {} rfl⟩
+  | cons s0 S' =>
+    have hc2 : ∀ s ∈ (s0 :: S') ++ [segUnimock], CommaFree s := by
+      intro s hs
+      rcases List.mem_append.mp hs with h | h
+      · exact hS s h
+      · simp only [List.mem_singleton] at h; subst h; exact commaFree_bare "unimock"
+    have hn1 : attrOf (s0 :: S') ≠ [] := attrOf_ne_nil_of_mem (hne s0 List.mem_cons_self) List.mem_cons_self
+    have hn2 : attrOf ((s0 :: S') ++ [segUnimock]) ≠ [] :=
+      attrOf_ne_nil_of_mem (hne s0 List.mem_cons_self) (by simp)
+    unfold parseTraitAttr
+    simp only [List.isEmpty_iff, hn1, hn2, if_false]
+    rw [splitCommas_attrOf _ (by simp) hS, splitCommas_attrOf _ (by simp) hc2]
+    simp only [List.cons_append]
+    rw [parseTraitSegs_cons, parseTraitSegs_cons]
+    cases hp0 : parseOpt s0 with
+    | ok r =>
+      simp only []
+      exact trait_snoc_rel v hv {} (s0 :: S') hn rfl
+    | error e =>
+      simp only []
+      cases hpv : parseVis s0 with
+      | error e => simp only [ParseRel]
+      | ok vr =>
+        obtain ⟨vis, rest⟩ := vr
+        simp only []
+        cases rest with
+        | nil => simp only [ParseRel]
+        | cons t0 rest0 =>
+          cases t0 with
+          | punct c => simp only [ParseRel]
+          | lit l => simp only [ParseRel]
+          | group d g => simp only [ParseRel]
+          | ident name =>
+            simp only []
+            split
+            · simp only [ParseRel]
+            · have hS'n : NoKey 6 S' := fun s hs => hn s (List.mem_cons_of_mem _ hs)
+              have hne1 : (S' == [[]]) = false := by
+                cases S' with
+                | nil => rfl
+                | cons q qs =>
+                  have := hne q (by simp)
+                  cases qs <;> simp [this]
+              have hne2 : (S' ++ [segUnimock] == [[]]) = false := by
+                cases S' with
+                | nil => rfl
+                | cons q qs => cases qs <;> simp
+              simp only [hne1, hne2, Bool.false_eq_true, if_false]
+              split
+              · have hnk : NoKey 6 (rest0 :: S') := by
+                  intro s hs
+                  rcases List.mem_cons.mp hs with rfl | hs
+                  · exact hr0 s0 (by simp) vis name s hpv s List.mem_cons_self
+                  · exact hS'n s hs
+                have := trait_snoc_rel v hv { implTrait := some (vis, name) } (rest0 :: S') hnk rfl
+                simpa only [List.cons_append] using this
+              · exact trait_snoc_rel v hv { implTrait := some (vis, name) } S' hS'n rfl
+
+
+/-! ### (c) the expansion does not depend on option order -/
+
+/-- the keys of the options a segment list sets -/
+def segKeys (segs : List Toks) : List Nat := (segs.filterMap segOpt).map Opt.key
+
+/-- setting two different options commutes -/
+def SetComm {σ : Type} (set : σ → Opt → Option σ) : Prop :=
+  ∀ st o1 o2 s1 s2, Opt.key o1 ≠ Opt.key o2 → set st o1 = some s1 → set s1 o2 = some s2 →
+    ∃ s1', set st o2 = some s1' ∧ set s1' o1 = some s2
+
+theorem setFn_comm : SetComm Opts.setFn := by
+  intro st o1 o2 s1 s2 hk h1 h2
+  cases o1 <;> cases o2 <;> simp only [Opts.setFn, Option.some.injEq, reduceCtorEq] at h1 h2 <;>
+    first
+    | exact absurd rfl hk
+    | (subst h1; subst h2; exact ⟨_, rfl, rfl⟩)
+
+theorem traitSet_comm : SetComm TraitAttr.set := by
+  intro st o1 o2 s1 s2 hk h1 h2
+  cases o1 <;> cases o2 <;> simp only [TraitAttr.set, Option.some.injEq, reduceCtorEq] at h1 h2 <;>
+    first
+    | exact absurd rfl hk
+    | (subst h1; subst h2; exact ⟨_, rfl, rfl⟩)
+
+theorem segKeys_cons_some {x : Toks} {o : Opt} (l : List Toks) (h : segOpt x = some o) :
+    segKeys (x :: l) = Opt.key o :: segKeys l := by
+  simp [segKeys, List.filterMap_cons, h]
+
+theorem parseOptSegs_perm {σ : Type} (set : σ → Opt → Option σ) (hc : SetComm set) {l1 l2 : List Toks}
+    (hp : l1.Perm l2) :
+    ∀ (st r : σ), (segKeys l1).Nodup → parseOptSegs set st l1 = .ok r → parseOptSegs set st l2 = .ok r := by
+  induction hp with
+  | nil => intro st r _ h; exact h
+  | cons x _ ih =>
+    intro st r hnd h
+    rw [parseOptSegs_cons_ok] at h ⊢
+    obtain ⟨o, st', ho, hs, hrest⟩ := h
+    rw [segKeys_cons_some _ ho] at hnd
+    exact ⟨o, st', ho, hs, ih st' r (List.nodup_cons.mp hnd).2 hrest⟩
+  | swap x y l =>
+    intro st r hnd h
+    rw [parseOptSegs_cons_ok] at h
+    obtain ⟨oy, s1, hoy, hs1, h⟩ := h
+    rw [parseOptSegs_cons_ok] at h
+    obtain ⟨ox, s2, hox, hs2, hrest⟩ := h
+    rw [segKeys_cons_some _ hoy, segKeys_cons_some _ hox] at hnd
+    have hk : Opt.key oy ≠ Opt.key ox := by
+      intro he
+      have := (List.nodup_cons.mp hnd).1
+      simp [he] at this
+    obtain ⟨s1', h1', h2'⟩ := hc st oy ox s1 s2 hk hs1 hs2
+    rw [parseOptSegs_cons_ok]
+    refine ⟨ox, s1', hox, h1', ?_⟩
+    rw [parseOptSegs_cons_ok]
+    exact ⟨oy, s2, hoy, h2', hrest⟩
+  | trans p1 _ ih1 ih2 =>
+    intro st r hnd h
+    have hnd2 := (List.Perm.nodup_iff ((p1.filterMap segOpt).map Opt.key)).mp hnd
+    exact ih2 st r hnd2 (ih1 st r hnd h)
+
+/-- **order independence**, fn / mod: any permutation of an accepted option list with pairwise
+    different options expands identically -/
+theorem T_C17_perm_fn (v : Variant) (a0 : Toks) (X1 X2 : List Toks) (hp : X1.Perm X2)
+    (ha0 : CommaFree a0) (h1c : ∀ s ∈ X1, CommaFree s) (hnd : (segKeys X1).Nodup)
+    (hok : ∃ r, parseOptSegs Opts.setFn {} X1 = .ok r) :
+    (∀ f, expand v (attrOf (a0 :: X1)) (.fn f) = expand v (attrOf (a0 :: X2)) (.fn f)) ∧
+    (∀ m, expand v (attrOf (a0 :: X1)) (.mod_ m) = expand v (attrOf (a0 :: X2)) (.mod_ m)) := by
+  obtain ⟨r, hr⟩ := hok
+  have hr2 := parseOptSegs_perm Opts.setFn setFn_comm hp {} r hnd hr
+  have h2c : ∀ s ∈ X2, CommaFree s := fun s hs => h1c s (hp.mem_iff.mpr hs)
+  have := parseFnAttr_rel v v a0 X1 X2 (fun a b => a = b) ha0 h1c h2c (by rintro a b rfl; rfl)
+    (by rw [hr, hr2]; simp only [ParseRel])
+  exact expand_fnmod_of_rel v v (attrOf (a0 :: X1)) (attrOf (a0 :: X2)) this
+
+theorem parseOptSegs_ok_head {σ : Type} (set : σ → Opt → Option σ) (st r : σ) (s0 : Toks) (S : List Toks)
+    (h : parseOptSegs set st (s0 :: S) = .ok r) : ∃ o, parseOpt s0 = .ok (o, []) := by
+  rw [parseOptSegs_cons_ok] at h
+  obtain ⟨o, _, ho, _, _⟩ := h
+  unfold segOpt at ho
+  split at ho
+  · rename_i o' heq
+    exact ⟨o', heq⟩
+  · simp at ho
+
+/-- **order independence**, trait targets without a delegation-target trait: the whole argument
+    list is an option list -/
+theorem T_C17_perm_trait (v : Variant) (S1 S2 : List Toks) (hp : S1.Perm S2)
+    (h1c : ∀ s ∈ S1, CommaFree s) (hne : ∀ s ∈ S1, s ≠ []) (hnd : (segKeys S1).Nodup)
+    (hok : ∃ r, parseOptSegs TraitAttr.set {} S1 = .ok r) (t : TraitItem) :
+    expand v (attrOf S1) (.trait t) = expand v (attrOf S2) (.trait t) := by
+  obtain ⟨r, hr⟩ := hok
+  have hr2 := parseOptSegs_perm TraitAttr.set traitSet_comm hp {} r hnd hr
+  have h2c : ∀ s ∈ S2, CommaFree s := fun s hs => h1c s (hp.mem_iff.mpr hs)
+  have hne2 : ∀ s ∈ S2, s ≠ [] := fun s hs => hne s (hp.mem_iff.mpr hs)
+  apply expand_trait_of_rel
+  cases S1 with
+  | nil =>
+    have : S2 = [] := List.Perm.eq_nil (hp.symm)
+    subst this
+    exact parseRel_refl_trait v _
+  | cons a A =>
+    cases S2 with
+    | nil => exact absurd (List.Perm.eq_nil hp) (by simp)
+    | cons b B =>
+      have hn1 : attrOf (a :: A) ≠ [] := attrOf_ne_nil_of_mem (hne a List.mem_cons_self) List.mem_cons_self
+      have hn2 : attrOf (b :: B) ≠ [] := attrOf_ne_nil_of_mem (hne2 b List.mem_cons_self) List.mem_cons_self
+      obtain ⟨oa, hoa⟩ := parseOptSegs_ok_head _ _ _ _ _ hr
+      obtain ⟨ob, hob⟩ := parseOptSegs_ok_head _ _ _ _ _ hr2
+      unfold parseTraitAttr
+      simp only [List.isEmpty_iff, hn1, hn2, if_false]
+      rw [splitCommas_attrOf _ (by simp) h1c, splitCommas_attrOf _ (by simp) h2c,
+        parseTraitSegs_cons, parseTraitSegs_cons, hoa, hob]
+      simp only [hr, hr2, ParseRel]
+      exact ⟨rfl, rfl, rfl⟩
+
+
+/-! ### (e) each option is accepted only on the targets documented for it -/
+
+inductive Target | fn | mod_ | trait | impl
+  deriving DecidableEq, Repr
+
+/-- the option table of the crate documentation (`src/lib.rs`, "# Options"), transcribed -/
+def documented : Opt → Target → Bool
+  | .noDeps _, .fn => true
+  | .export_ _, .fn => true
+  | .export_ _, .mod_ => true
+  | .mockApi _, t => t != .impl
+  | .unimock _, t => t != .impl
+  | .mockall _, t => t != .impl
+  | .maybeSend, t => t != .impl
+  | .delegateBy _, .trait => true
+  | _, _ => false
+
+/-- what the attribute parsers accept, per target -/
+def accepts (o : Opt) : Target → Bool
+  | .fn => (Opts.setFn {} o).isSome
+  | .mod_ => (Opts.setFn {} o).isSome
+  | .trait => (TraitAttr.set {} o).isSome
+  | .impl => (ImplAttr.set {} o).isSome
+
+/-- acceptance does not depend on what was parsed before -/
+theorem accepts_state_indep (o : Opt) :
+    (∀ st, (Opts.setFn st o).isSome = (Opts.setFn {} o).isSome) ∧
+    (∀ st, (TraitAttr.set st o).isSome = (TraitAttr.set {} o).isSome) ∧
+    (∀ st, (ImplAttr.set st o).isSome = (ImplAttr.set {} o).isSome) := by
+  cases o <;> exact ⟨fun _ => rfl, fun _ => rfl, fun _ => rfl⟩
+
+/-- the model accepts exactly the documented (option, target) pairs — apart from the undocumented
+    `debug`, and from `no_deps` on modules (`C17_no_deps_on_mod`, a recorded finding) -/
+theorem T_C17_table (o : Opt) (t : Target) (hdebug : Opt.key o ≠ 1) (hfinding : ¬ (Opt.key o = 0 ∧ t = .mod_)) :
+    accepts o t = documented o t := by
+  cases o <;> cases t <;> first | rfl | exact absurd rfl hdebug | exact absurd ⟨rfl, rfl⟩ hfinding
+
+/-- the deviation from the documented table: `no_deps` is accepted on a module -/
+theorem C17_no_deps_on_mod (b : Bool) : accepts (.noDeps b) .mod_ = true ∧ documented (.noDeps b) .mod_ = false :=
+  ⟨rfl, rfl⟩
+
+/-- a rejected option is answered with "Unsupported option", wherever it stands in an otherwise
+    accepted prefix -/
+theorem rejected_is_diag {σ : Type} (set : σ → Opt → Option σ) (A B : List Toks) (seg : Toks) (o : Opt) (rest : Toks)
+    (st stA : σ) (hA : parseOptSegs set st A = .ok stA) (hp : parseOpt seg = .ok (o, rest)) (hrej : set stA o = none) :
+    parseOptSegs set st (A ++ seg :: B) = .error unsupported := by
+  rw [parseOptSegs_append, hA]
+  simp only []
+  rw [parseOptSegs.eq_2, hp]
+  simp only [hrej]
+
+/-- anything that is not an option name is answered with its "Unkonwn entrait option" message -/
+theorem unknown_is_diag (s : String) (hk : isKeyword s = false)
+    (hs : s ∉ ["no_deps", "debug", "delegate_by", "export", "mock_api", "unimock", "mockall"]) (rest : Toks) :
+    parseOpt (i s :: rest) = .error (unknownOpt s) := by
+  simp only [List.mem_cons, List.mem_nil_iff, or_false, not_or] at hs
+  obtain ⟨h1, h2, h3, h4, h5, h6, h7⟩ := hs
+  simp [parseOpt, i, hk, h1, h2, h3, h4, h5, h6, h7]
+
+
+/-! ### non-vacuity -/
+
+/-- the hypotheses of the order theorem hold of `no_deps, unimock, mock_api = M` -/
+example : (segKeys [[i "no_deps"], [i "unimock"], [i "mock_api", p '=', i "M"]]).Nodup ∧
+    ∃ r, parseOptSegs Opts.setFn {} [[i "no_deps"], [i "unimock"], [i "mock_api", p '=', i "M"]] = .ok r :=
+  ⟨by decide +kernel, _, rfl⟩
+
+/-- `NoKey` holds of a list that does not mention the option -/
+example : NoKey 3 [[i "no_deps"], [i "mock_api", p '=', i "M"]] := by
+  intro seg hs o rest hp
+  simp only [List.mem_cons, List.mem_nil_iff, or_false] at hs
+  rcases hs with rfl | rfl
+  · have : parseOpt [i "no_deps"] = .ok (.noDeps true, []) := rfl
+    rw [this] at hp; injection hp with hp; injection hp with h1 _; subst h1; decide
+  · have : parseOpt [i "mock_api", p '=', i "M"] = .ok (.mockApi "M", []) := rfl
+    rw [this] at hp; injection hp with hp; injection hp with h1 _; subst h1; decide
+
 end Entrait.C17
